@@ -241,6 +241,15 @@ func c16(r *eng.Run) {
 		noPump: !r.Thorough(),
 	}
 	res := runE1(r, sp, 0, K, 300000)
+	// the shared hard-string pool (escaped quote first, plain runs, every escape kind): token and
+	// bare content, through the same destination / scratch menus
+	{
+		var pool [][]byte
+		for _, x := range hardStrings() {
+			pool = append(pool, []byte(x), []byte(x[1:len(x)-1]))
+		}
+		runFamily(r, "hard-strings", sp.entry, pool, checkBuffers)
+	}
 	// input immutability of every exported function on every node of a generic exploration
 	apiRuns := 0
 	sp2 := e1Spec{
